@@ -1,7 +1,7 @@
 """C11 -- assignment: radial assignment (nearest radius, outer bound = last shell boundary, NaN policy), index
 composition (t*n_o + o)*n_b + b with NaN propagation, second-molecule selection string; lemma nearest radius <=> containing shell."""
 import z3
-from pyvc.core import Num, Bool, Vec, Mat, Str, Obj, Tup, NONE, Opaque, zint, conc
+from pyvc.core import Num, Bool, Vec, Mat, Str, Obj, Tup, NONE, Opaque, Unsupported, zint, conc
 from pyvc.ops import vget, to_num, as_real, lift
 from pyvc.verify import Contract
 from pyvc.interp import Stub
@@ -175,7 +175,89 @@ class SecondMolecule(Contract):
         V.oblige("post:selects-the-last-n2-atoms", z3.And(lo == n1 + 1, hi >= n1 + n2))
 
 
-CONTRACTS = [TAssignment(), FullAssignments(), SecondMolecule()]
+class OAssignment(Contract):
+    """AssignmentTool._o_assignment_function: the direction index is the first argmin, over the rows of the direction grid, of the
+    distance (metric 'cos' for spherical, 'euclidean' for Cartesian position grids) between the row and the NORMALISED centre of
+    mass of the second molecule.  cdist and normalise_vectors are assumed (uninterpreted); that the cosine distance orders
+    directions like the great-circle angle is the one-line monotonicity of arccos."""
+    target = f"{REL}::AssignmentTool._o_assignment_function"
+    variants = ("spherical", "cartesian")
+    property_ids = ("C11",)
+    expected = ("post:first-nearest-direction",)
+
+    def setup(self, V, variant):
+        ctx = V.ctx
+        n_o = V.int("n_o", lo=1)
+        oz = z3.Function("o_grid", z3.IntSort(), z3.IntSort(), z3.RealSort())
+        o = Mat(n_o, 3, lambda i, j: Num(oz(zint(i), zint(j)), False))
+        com = [z3.Real(f"com{i}") for i in range(3)]
+        comv = Vec(3, kind="ndarray", elem="real", items=[Num(c, False) for c in com])
+        ag = Stub("AtomGroup", {"center_of_mass": lambda i, a, k: comv})
+        obj = tool(V, {"o_array": o, "cartesian_grid": lift(variant == "cartesian")})
+        V.env.update(n_o=n_o, oz=oz, com=com)
+        return [obj, ag], {}
+
+    def post(self, V, variant, env, outcome):
+        ctx = V.ctx
+        if outcome[0] != "return":
+            V.oblige(f"post:no-exception[{outcome[1]}]", False)
+            return
+        r = outcome[1]
+        n_o, oz, com = env["n_o"], env["oz"], env["com"]
+        from pyvc.lib_io import cdist_fn
+        D = cdist_fn("euclidean" if variant == "cartesian" else "cos", 3)
+        u = [UNIT(c, *com) for c in com]          # the normalised centre of mass (assumed contract of normalise_vectors)
+        dist = lambda i: D(oz(i, 0), oz(i, 1), oz(i, 2), *u)
+        ok = isinstance(r, Vec) and conc(r.length) == 1
+        V.oblige("post:one-index-per-frame", z3.BoolVal(ok))
+        if not ok:
+            return
+        k = to_num(vget(ctx, r, 0)).z
+        j = z3.Int("j11o")
+        am = ctx.__dict__.get("argmins", [])
+        if am:
+            ctx.assume(am[-1]["instance"](j))
+        V.oblige("post:index-in-range", z3.And(k >= 0, k < n_o))
+        V.oblige("post:first-nearest-direction", z3.Implies(z3.And(j >= 0, j < n_o), z3.And(dist(k) <= dist(j), z3.Implies(j < k, dist(j) > dist(k)))))
+
+    def mustfail(self, V, variant, env, outcome):
+        if outcome[0] != "return":
+            return
+        r = outcome[1]
+        if not (isinstance(r, Vec) and conc(r.length) == 1):
+            return
+        from pyvc.lib_io import cdist_fn
+        n_o, oz, com = env["n_o"], env["oz"], env["com"]
+        D = cdist_fn("euclidean" if variant == "cartesian" else "cos", 3)
+        k = to_num(vget(V.ctx, r, 0)).z
+        j = z3.Int("j11om")
+        # twin: nearest to the un-normalised centre of mass
+        V.oblige("mustfail:nearest-to-the-unnormalised-centre", z3.Implies(z3.And(j >= 0, j < n_o),
+                 D(oz(k, 0), oz(k, 1), oz(k, 2), *com) <= D(oz(j, 0), oz(j, 1), oz(j, 2), *com)), kind="mustfail")
+
+
+UNIT = z3.Function("unit_component", z3.RealSort(), z3.RealSort(), z3.RealSort(), z3.RealSort(), z3.RealSort())
+
+
+class NormaliseRowAssumed(Contract):
+    """utils.normalise_vectors on a (1,3) row: component c becomes unit_component(c; x, y, z)  (= c / |(x,y,z)|, assumed)"""
+    target = "molgri/space/utils.py::normalise_vectors"
+    property_ids = ()
+
+    def apply(self, interp, func, args, kwargs):
+        v = args[0]
+        if not (isinstance(v, Vec) and conc(v.length) == 3) or len(args) > 1 or kwargs:
+            raise Unsupported("normalise_vectors: only a single 3-vector / (1,3) row with default arguments is summarised")
+        xs = [as_real(to_num(vget(interp.ctx, v, i))) for i in range(3)]
+        out = Vec(3, kind="ndarray", elem="real", items=[Num(UNIT(x, *xs), False) for x in xs])
+        if getattr(v, "newaxis", None):
+            out.newaxis = v.newaxis
+        return out
+
+
+
+CONTRACTS = [TAssignment(), FullAssignments(), SecondMolecule(), OAssignment()]
+CALLEE_CONTRACTS = [NormaliseRowAssumed()]
 
 
 def lemmas():
